@@ -23,7 +23,7 @@ COMPONENTS_STUB = ["RandomSource.randint/random_float (SimRandom, stream R)", "s
 ASSUMPTIONS = ["library error types are GeneticEngineError, SynthesisException, InvalidGrammarException",
                "typing is judged against the generated specification, exact base types (True is not an int)"]
 
-FEAT = features(tuple=2, union=2, list=2, annlist=3, flaky=1, dependent=1, interval=1, concrete_start=1, nested_generic=1, nested_list=1, self_ref=1, deep_chain=1, multi_dependent=1, falsy=1, future_annotations=1)
+FEAT = features(tuple=2, union=2, list=2, annlist=3, flaky=1, dependent=1, interval=1, concrete_start=1, nested_generic=1, nested_list=1, self_ref=1, deep_chain=1, multi_dependent=1, falsy=1, future_annotations=1, hollow=1)
 
 
 def budget(tier):
@@ -99,14 +99,27 @@ def site_of(w, res):
     return w.rep_kind
 
 
+def directed(tier):
+    """the shipped grammars (geml.grammars) and the hierarchies of the test-suite under seeded configurations"""
+    from ..world import corpus_directed
+
+    return corpus_directed(tier)
+
+
 def run(ctx):
     H = ctx.H
-    w = SynthWorld(ctx, feat=FEAT)
+    is_corpus = ctx.params.get("corpus") is not None
+    if is_corpus:
+        from ..world import corpus_world
+
+        w = corpus_world(ctx, ctx.params["corpus"], FEAT)
+    else:
+        w = SynthWorld(ctx, feat=FEAT)
     try:
         ctx.sample = w.describe()
         r = w.extract()
         if not r.ok:
-            if r.foreign:
+            if r.foreign and not is_corpus:
                 ctx.violate(f"C01/error-type/extract/{r.foreign}", f"extract_grammar raised a foreign exception {r.foreign}")
             return
         r = w.construct()
@@ -117,7 +130,7 @@ def run(ctx):
             return
         n_ops = 1 + H.draw(12 if ctx.tier == "quick" else 40)
         ops = []
-        redeclare_at = H.draw(n_ops) if H.draw(4) == 3 else -1
+        redeclare_at = H.draw(n_ops) if (H.draw(4) == 3 and not is_corpus) else -1
         for step_i in range(n_ops):
             if step_i == redeclare_at:
                 rr = w.op_redeclare()
